@@ -571,10 +571,12 @@ class Ev:
             return t.as_long() if t is not None and z3.is_int_value(t) else None
         ca, cb = const_int(a), const_int(b)
         if cb is not None and 0 <= cb <= 4 and a.ty.k in ("int", "real"):
-            t = z3.IntVal(1) if a.ty.k == "int" else z3.RealVal(1)
-            for _ in range(cb):
-                t = t * a.t
-            return Val(t, a.ty)
+            if cb == 0:
+                return Val(z3.IntVal(1) if a.ty.k == "int" else z3.RealVal(1), a.ty)
+            r = a
+            for _ in range(cb - 1):
+                r = self.binop(ast.Mult(), r, a, node)     # same translation as an explicit product (uf mode included)
+            return r
         if ca == 2 and b.ty.k == "int":
             self.u.used.add("pow2")
             self.need(b.t >= 0, "pow2-negative-exponent", node)
